@@ -52,6 +52,7 @@ type FnCtx struct {
 	depth        int
 	closure      bool
 	globalWrites []*types.Var
+	nameSeen     map[string]int
 	firedWhere   map[string]bool // program points of assert clauses that were reached
 	gen          *genInfo // non-nil: a closure of generated code (call-site hooks active)
 	nameSuffix   string   // appended to obligation names while deferred calls run at an exit
@@ -69,6 +70,14 @@ func (fc *FnCtx) oblige(st *State, kind string, goal *Term, pos token.Pos, note 
 
 func (fc *FnCtx) obligeNamed(st *State, name, kind string, goal *Term, pos token.Pos, note string) {
 	name += fc.nameSuffix
+	// the same program point reached on several (unmerged) paths: number the occurrences
+	if fc.nameSeen == nil {
+		fc.nameSeen = map[string]int{}
+	}
+	fc.nameSeen[name]++
+	if n := fc.nameSeen[name]; n > 1 {
+		name = fmt.Sprintf("%s~path%d", name, n)
+	}
 	o := &Obligation{Name: name, Kind: kind, Func: fc.name, Hyps: st.Hyps(), Goal: goal, Pos: fc.e.posStr(pos), Note: note, AbsPrefix: fc.gen != nil}
 	if goal.IsTrue() {
 		o.Verdict = "unsat"
@@ -961,6 +970,40 @@ func (fc *FnCtx) execRange(st *State, x *ast.RangeStmt) []Outcome {
 		_ = pt
 		panic(unsupported("range over pointer to array"))
 	}
+	if ls.Unroll {
+		if kind != "slice" || !length.IsInt() || length.Int.Int64() > 16 {
+			panic(unsupported("loop %d: unroll needs a slice of constant length <= 16", n))
+		}
+		// execute the body once per element, in order (exact; no invariant needed)
+		cur := []*State{st}
+		var outs []Outcome
+		for k := int64(0); k < length.Int.Int64(); k++ {
+			var next []*State
+			for _, s := range cur {
+				if keyObj != nil {
+					s.Declare(keyObj, Int(k))
+				}
+				if valObj != nil {
+					s.Declare(valObj, coll.(*SliceV).At(Int(k)))
+				}
+				for _, o := range fc.execBlock(s, x.Body.List) {
+					switch {
+					case o.kind == oFall || (o.kind == oContinue && (o.label == "" || o.label == lbl)):
+						next = append(next, o.st)
+					case o.kind == oBreak && (o.label == "" || o.label == lbl):
+						outs = append(outs, Outcome{kind: oFall, st: o.st})
+					default:
+						outs = append(outs, o)
+					}
+				}
+			}
+			cur = next
+		}
+		for _, s := range cur {
+			outs = append(outs, Outcome{kind: oFall, st: s})
+		}
+		return outs
+	}
 	idx0 := Int(0)
 	scope0 := map[string]Value{keyName: idx0}
 	fc.checkInvariants(st, ls, n, "establish", scope0, x.Pos())
@@ -1003,6 +1046,7 @@ func (fc *FnCtx) execRange(st *State, x *ast.RangeStmt) []Outcome {
 		switch {
 		case o.kind == oFall || (o.kind == oContinue && (o.label == "" || o.label == lbl)):
 			sc := map[string]Value{keyName: Add(idx, step)}
+			fc.applyUsesScope(o.st, fmt.Sprintf("loop%d.end", n), sc)
 			fc.checkInvariants(o.st, ls, n, fc.phaseOf(o), sc, x.Pos())
 		case o.kind == oBreak && (o.label == "" || o.label == lbl):
 			outs = append(outs, Outcome{kind: oFall, st: o.st})
@@ -1157,6 +1201,14 @@ func (fc *FnCtx) applyUsesScope(st *State, where string, extra map[string]Value)
 			t := sc.evalBool(a.Expr)
 			fc.oblige(st, "assert", t, token.NoPos, a.Text+" @"+where)
 			st.Assume(t)
+		}
+	}
+	for _, a := range fc.c.Assumes {
+		if a.Where == where && fc.e.applies(&Clause{Props: a.Props}) {
+			sc := fc.specCtx(st, extra)
+			sc.pol = -1
+			st.Assume(sc.evalBool(a.Expr))
+			fc.e.trusted["assume clause in the contract of "+fc.name+": "+a.Text] = true
 		}
 	}
 	for _, u := range fc.c.Uses {
